@@ -172,6 +172,11 @@ func init() {
 					outcome := []string{"ok", "err"}[rng.Intn(2)]
 					d := int64(rng.Intn(3))
 					want := errors.New("boom")
+					if outcome == "err" && rng.Intn(3) == 0 {
+						// a non-nil error value that wraps a nil pointer: `err != nil` holds for it, Exec must treat it as an error
+						// and hand back the very same value
+						want = error((*c10TypedErr)(nil))
+					}
 					ran := 0
 					var ret error
 					func() {
@@ -210,3 +215,7 @@ func init() {
 		writeMeta(cm.out, M{"histories": nHist, "events": tr.N, "evals": evals, "distinct": len(distinct), "samples": samples})
 	})
 }
+
+type c10TypedErr struct{}
+
+func (*c10TypedErr) Error() string { return "typed nil" }
